@@ -4,6 +4,7 @@ import (
 	"flag"
 	"fmt"
 	"os"
+	"path/filepath"
 	"sort"
 	"strings"
 	"time"
@@ -35,6 +36,25 @@ func main() {
 		for _, k := range ks {
 			fmt.Println(k)
 		}
+	case "bindcache":
+		// records the structural fingerprints of the locals of every function under contract
+		// (run on a tree where all checks pass; the file is committed)
+		var pats []string
+		for _, f := range contractFiles("/repo") {
+			rel, _ := filepath.Rel("/repo", filepath.Dir(f))
+			pats = append(pats, "./"+rel)
+		}
+		P, err := vc.Load("/repo", pats)
+		if err != nil {
+			fmt.Fprintln(os.Stderr, err)
+			os.Exit(2)
+		}
+		n, err := vc.WriteBindCache(P, vc.BindCacheFile)
+		if err != nil {
+			fmt.Fprintln(os.Stderr, err)
+			os.Exit(2)
+		}
+		fmt.Printf("bindcache: %d locals of the functions under contract recorded in %s\n", n, vc.BindCacheFile)
 	case "replay":
 		os.Exit(cmdReplay(os.Args[2:]))
 	case "witness":
@@ -112,4 +132,3 @@ func cmdUnit(args []string) {
 		}
 	}
 }
-
